@@ -279,7 +279,7 @@ fn sample_fci(k: u64) -> Fci {
 }
 
 pub fn c20(ctx: &mut Ctx) {
-    ctx.rule = "history trees without merging: every sequence of builder calls up to depth d over a small call alphabet (2-3 legal argument values per call) is replayed on a fresh real builder and on a trivial model; the bytes (and size, and error if any) must equal those of the canonical construction of the model's final state, for the bare builder, PacketBuilder::from, a one-member compound and a compound of the PacketBuilder; FIR compared up to entry order; plus flavour equivalence over whole configuration spaces: every configuration of the round-trip generators is realised in all 16 API flavours (owned/borrowed x 4 wrappers x with/without the intermediate builder being queried after every call) and each must give the bytes or the error of the plain flavour; states = histories and configurations, distinct_nontrivial = distinct final configurations (fingerprint of the model state)".into();
+    ctx.rule = "history trees without merging: every sequence of builder calls up to depth d over a small call alphabet (2-3 legal argument values per call) is replayed on a fresh real builder and on a trivial model; the bytes (and size, and error if any) must equal those of the canonical construction of the model's final state, for the bare builder, PacketBuilder::from, a one-member compound and a compound of the PacketBuilder; FIR compared up to entry order; plus flavour equivalence over whole configuration spaces: every configuration of the round-trip generators is realised in all API flavours (owned/borrowed x 4 wrappers x with/without the intermediate builder being queried after every call) and each must give the bytes or the error of the plain flavour; states = histories and configurations, distinct_nontrivial = distinct final configurations (fingerprint of the model state)".into();
     let t = ctx.tier;
     let d_bye = t.pick(6u32, 7u32);
     ctx.bound("ByeBuilder", format!("{{padding x2, add_source x2, reason x3, reason_owned x2}} depth {}", d_bye));
@@ -288,7 +288,7 @@ pub fn c20(ctx: &mut Ctx) {
     ctx.bound("feedback builders", "{sender_ssrc x2, media_ssrc x2, padding x2} depth 4 x {builder, builder_owned} x 5 FCI types");
     ctx.bound("AppBuilder / UnknownBuilder / SenderReportBuilder / ReceiverReportBuilder / ReportBlockBuilder", format!("setters x2 values, adders x2, depth {}", t.pick(5, 6)));
     ctx.bound("NackBuilder / FirBuilder", format!("add sequences of length <= 5 over {{5,6,22,23}} and <= {} over {{0,1,17,0x7FFF,0x8000,0x8001,0xFFFE,0xFFFF}} / <= 4 over {{(a,1),(a,2),(b,1),(a,255),(a,0)}}", t.pick(4, 5)));
-    ctx.bound("flavour equivalence", t.pick("all configurations of the RPSI, BYE, APP, SDES, FIR, SLI, PLI and NACK (18-value windows) generators x 16 flavours", "the same with the thorough generators, plus the SR/RR generator"));
+    ctx.bound("flavour equivalence", t.pick("all configurations of the RPSI, BYE, APP, SDES, FIR, SLI, PLI and NACK (18-value windows) generators x 23 flavours", "the same with the thorough generators, plus the SR/RR generator"));
     ctx.assume("call histories deeper than the stated depths, and argument values outside the 2-3 per call, are not explored");
 
     // BYE
@@ -661,8 +661,55 @@ pub fn c20(ctx: &mut Ctx) {
             all_wraps(l, "FirBuilder", &hist, &model, &|| PayloadFeedback::builder(&f).sender_ssrc(3).media_ssrc(4));
         }
     });
+    // long add-histories: n numbers added in ascending / descending / interleaved order, then one more add (below all,
+    // in the middle, above all, or a repeat of the first / middle / last) - where a structure with a small-size fast
+    // path or a bounded search window changes gear (n around 8, 16, 32, 64)
+    {
+        let counts: [usize; 12] = [7, 8, 9, 15, 16, 17, 31, 32, 33, 34, 65, 130];
+        ctx.bound("long add-histories", "NackBuilder / FirBuilder: n in {7,8,9,15,16,17,31,32,33,34,65,130} adds in 3 orders, then one more add in 6 positions");
+        ctx.run_space("long-add-histories", 12 * 3 * 6 * 2, |idx, l| {
+            let n = counts[(idx % 12) as usize];
+            let order = (idx / 12) % 3;
+            let extra = (idx / 36) % 6;
+            let fir = idx / 216 == 1;
+            let step: u32 = if fir { 0x0001_0001 } else { 19 };
+            let base: u32 = if fir { 0x0100_0000 } else { 1000 };
+            let mut xs: Vec<u32> = (0..n as u32).map(|i| base + i * step).collect();
+            match order {
+                0 => {}
+                1 => xs.reverse(),
+                _ => {
+                    let (a, b): (Vec<u32>, Vec<u32>) = (xs.iter().copied().step_by(2).collect(), xs.iter().copied().skip(1).step_by(2).rev().collect());
+                    xs = a.into_iter().chain(b).collect();
+                }
+            }
+            let sorted_min = base;
+            let sorted_max = base + (n as u32 - 1) * step;
+            let last = match extra {
+                0 => sorted_min - 1,
+                1 => base + (n as u32 / 2) * step + 1,
+                2 => sorted_max + 1,
+                3 => xs[0],
+                4 => xs[n / 2],
+                _ => xs[n - 1],
+            };
+            xs.push(last);
+            if fir {
+                let adds: Vec<(u32, u8)> = xs.iter().enumerate().map(|(i, s)| (*s, (i % 250) as u8)).collect();
+                let canonical: Vec<(u32, u8)> = Fci::fir_map(&adds).into_iter().collect();
+                let model = Pkt::Fb { kind: Kind::Payload, sender: 3, media: 4, fci: Fci::Fir(canonical), pad: 0 };
+                let hist = || format!("Fir::builder() + {} add_ssrc calls ({} order), then add_ssrc({:#x}, ..)", n, ["ascending", "descending", "interleaved"][order as usize], last);
+                all_wraps(l, "FirBuilder", &hist, &model, &|| PayloadFeedback::builder_owned(build::fir_builder_p(&adds, probing())).sender_ssrc(3).media_ssrc(4));
+            } else {
+                let seq: Vec<u16> = xs.iter().map(|x| *x as u16).collect();
+                let model = Pkt::Fb { kind: Kind::Transport, sender: 3, media: 4, fci: Fci::Nack(Fci::nack_set(&seq)), pad: 0 };
+                let hist = || format!("Nack::builder() + {} add_rtp_sequence calls ({} order), then add_rtp_sequence({})", n, ["ascending", "descending", "interleaved"][order as usize], last);
+                all_wraps(l, "NackBuilder", &hist, &model, &|| TransportFeedback::builder_owned(build::nack_builder_p(&seq, probing())).sender_ssrc(3).media_ssrc(4));
+            }
+        });
+    }
     // Flavour equivalence over whole configuration spaces: every configuration of the round-trip generators
-    // (C03-C05; thorough: C02 as well) is realised in all 16 API flavours - owned or borrowed variants of every
+    // (C03-C05; thorough: C02 as well) is realised in all API flavours - owned or borrowed variants of every
     // API that has both, bare builder / PacketBuilder::from / one-member compound / compound of the PacketBuilder,
     // and with or without the intermediate builder being queried after every call - and all of them must give the
     // bytes (or the error) of the plain flavour.
